@@ -239,10 +239,12 @@ fn sigmoid_ref(x: f32) -> f32 {
 /// What the oracle demands of `f(x)`.
 #[derive(Clone, Copy, Debug)]
 pub enum Demand {
-    /// Within `max` ULPs (of `expected`) of `expected`.
-    Ulps { expected: f32, max: f64 },
-    /// Within `max` absolute difference of `expected`.
-    Abs { expected: f32, max: f64 },
+    /// Within `max` ULPs of `expected` (the documented reference) -- or, so that an inaccuracy of
+    /// the platform's libm reference is not blamed on rten, within `max` ULPs of `alt`, the
+    /// function evaluated in f64 and rounded to f32.
+    Ulps { expected: f32, alt: f32, max: f64 },
+    /// Within `max` absolute difference of `expected` (or of `alt`, as above).
+    Abs { expected: f32, alt: f32, max: f64 },
     /// Inside the closed interval (bounds are f32 values; NaN bound = NaN expected).
     Interval { lo: f32, hi: f32 },
     /// Only the class (NaN / +inf / -inf / finite) of `expected` is demanded.
@@ -253,19 +255,20 @@ pub enum Demand {
 pub fn demands(f: Func, x: f32) -> ([Option<Demand>; 2], bool) {
     let in_derived = x.abs() <= DERIVED_RANGE;
     let d = match f {
-        Func::Exp => [Some(Demand::Ulps { expected: x.exp(), max: EXP_ULPS }), None],
-        Func::Sigmoid => [Some(Demand::Ulps { expected: sigmoid_ref(x), max: SIGMOID_ULPS }), None],
-        Func::Tanh => [Some(Demand::Ulps { expected: x.tanh(), max: TANH_ULPS }), None],
-        Func::Erf => [Some(Demand::Abs { expected: libm::erff(x), max: ERF_ABS }), None],
-        Func::Sin => [Some(Demand::Abs { expected: x.sin(), max: SIN_ABS }), None],
-        Func::Cos => [Some(Demand::Abs { expected: x.cos(), max: COS_ABS }), None],
+        Func::Exp => [Some(Demand::Ulps { expected: x.exp(), alt: (x as f64).exp() as f32, max: EXP_ULPS }), None],
+        Func::Sigmoid => [Some(Demand::Ulps { expected: sigmoid_ref(x), alt: (1. / (1. + (-(x as f64)).exp())) as f32, max: SIGMOID_ULPS }), None],
+        Func::Tanh => [Some(Demand::Ulps { expected: x.tanh(), alt: (x as f64).tanh() as f32, max: TANH_ULPS }), None],
+        Func::Erf => [Some(Demand::Abs { expected: libm::erff(x), alt: libm::erf(x as f64) as f32, max: ERF_ABS }), None],
+        Func::Sin => [Some(Demand::Abs { expected: x.sin(), alt: (x as f64).sin() as f32, max: SIN_ABS }), None],
+        Func::Cos => [Some(Demand::Abs { expected: x.cos(), alt: (x as f64).cos() as f32, max: COS_ABS }), None],
         Func::Silu => {
             // Documented formula x * sigmoid(x), implemented as x / (1 + Exp(-x));
             // Exp(-x) is within EXP_ULPS of (-x).exp().
             let (e_lo, e_hi) = ulp_band((-x).exp(), EXP_ULPS);
             let (a, b, c) = (x / (1. + e_lo), x / (1. + e_hi), x / (1. + (-x).exp()));
             let band = Demand::Interval { lo: fmin(fmin(a, b), c), hi: fmax(fmax(a, b), c) };
-            let grid = in_derived.then(|| Demand::Ulps { expected: x * sigmoid_ref(x), max: SILU_ULPS });
+            let r = x * sigmoid_ref(x);
+            let grid = in_derived.then(|| Demand::Ulps { expected: r, alt: r, max: SILU_ULPS });
             [Some(band), grid]
         }
         Func::Swish => {
@@ -275,13 +278,14 @@ pub fn demands(f: Func, x: f32) -> ([Option<Demand>; 2], bool) {
             // the centre is included so that an undefined reference (-inf * 0) demands NaN
             let (a, b, c) = (x * s_lo, x * s_hi, x * sigmoid_ref(t));
             let band = Demand::Interval { lo: fmin(fmin(a, b), c), hi: fmax(fmax(a, b), c) };
-            let grid = in_derived.then(|| Demand::Ulps { expected: x * sigmoid_ref(SWISH_ALPHA * x), max: SILU_ULPS });
+            let r = x * sigmoid_ref(SWISH_ALPHA * x);
+            let grid = in_derived.then(|| Demand::Ulps { expected: r, alt: r, max: SILU_ULPS });
             [Some(band), grid]
         }
         Func::Gelu => {
             let r = 0.5 * x * (1. + libm::erff(x / (2.0f32).sqrt()));
             if in_derived {
-                [Some(Demand::Abs { expected: r, max: GELU_ABS }), None]
+                [Some(Demand::Abs { expected: r, alt: r, max: GELU_ABS }), None]
             } else {
                 [Some(Demand::Class { expected: r }), None]
             }
@@ -291,7 +295,7 @@ pub fn demands(f: Func, x: f32) -> ([Option<Demand>; 2], bool) {
             let approx_erf = ((2.0f32 / std::f32::consts::PI).sqrt() * (x + 0.044715 * x_cubed)).tanh();
             let r = 0.5 * x * (1. + approx_erf);
             if in_derived {
-                [Some(Demand::Abs { expected: r, max: APPROX_GELU_ABS }), None]
+                [Some(Demand::Abs { expected: r, alt: r, max: APPROX_GELU_ABS }), None]
             } else {
                 [Some(Demand::Class { expected: r }), None]
             }
@@ -352,23 +356,23 @@ fn ulp_band(e: f32, n: f64) -> (f32, f32) {
 /// Judge one demand. Returns `Some((kind, detail))` on violation.
 pub fn judge(d: &Demand, actual: f32) -> Option<(&'static str, String)> {
     match *d {
-        Demand::Ulps { expected, max } => {
+        Demand::Ulps { expected, alt, max } => {
             if let Some(v) = special(actual, expected, true) {
                 return v;
             }
             let du = diff_ulps(actual, expected);
-            if du <= max {
+            if du <= max || (alt.is_finite() && diff_ulps(actual, alt) <= max) {
                 None
             } else {
                 Some(("ulp", format!("expected {expected:e} ({:#010x}), got {actual:e} ({:#010x}): {du:.3} ULPs > {max}", expected.to_bits(), actual.to_bits())))
             }
         }
-        Demand::Abs { expected, max } => {
+        Demand::Abs { expected, alt, max } => {
             if let Some(v) = special(actual, expected, true) {
                 return v;
             }
             let diff = (actual as f64 - expected as f64).abs();
-            if diff <= max {
+            if diff <= max || (alt.is_finite() && (actual as f64 - alt as f64).abs() <= max) {
                 None
             } else {
                 Some(("abs", format!("expected {expected:e}, got {actual:e}: |diff| {diff:e} > {max:e}")))
